@@ -298,14 +298,24 @@ func dropCheck(p *load.Program, fn *ssa.Function, opts dropOpts) (bad []dropFind
 				init.SetBool(f.Cond, f.Val)
 			}
 			init.SetNil(e, ssax.NonNil)
-			var dropped, valueUse string
+			var dropped, valueUse, valueStored string
 			complete := ssax.EnumPaths(fn, b, idx+1, init, ssax.PathHooks{
 				Instr: func(s *ssax.PathState, in2 ssa.Instruction) {
+					// the error is still non-nil on this path, whether or not it was tolerated or handed on: the value that
+					// came with it must not be put into a collection (a listing with a nil entry panics in the caller)
+					if companion != nil && valueStored == "" && s.Counts["cleared"] == 0 && s.Counts["handed"] == 0 {
+						if st, ok := in2.(*ssa.Store); ok && st.Val != nil && (s.Resolve(st.Val) == companion || s.Resolve(ssax.Unwrap(st.Val)) == companion) {
+							if _, isElem := st.Addr.(*ssa.IndexAddr); isElem {
+								valueStored = p.Pos(in2.Pos())
+							}
+						}
+					}
 					if s.Counts["done"] > 0 {
 						return
 					}
 					if escapingUse(in2, e, s) {
 						s.Counts["done"] = 1
+						s.Counts["handed"] = 1
 						return
 					}
 					if companion != nil && valueUse == "" && s.Counts["cleared"] == 0 {
@@ -383,6 +393,10 @@ func dropCheck(p *load.Program, fn *ssa.Function, opts dropOpts) (bad []dropFind
 					Msg: fmt.Sprintf("%s: when %s fails, a path reaches %s without the error having been returned, wrapped or handed on", fname(fn), cname, dropped)})
 			default:
 				good = append(good, dropOK{key + "|propagates", pos, "error propagates on every failing path"})
+			}
+			if valueStored != "" {
+				bad = append(bad, dropFinding{Key: key + "|value-kept-with-error", Pos: pos, Kind: "value-used-with-error", Call: ci,
+					Msg: fmt.Sprintf("%s: on a path where %s returned a non-nil error (tolerated by a sentinel test), its other result — nil — is put into a collection at %s: the caller receives a nil element and panics on its first method call", fname(fn), cname, valueStored)})
 			}
 			if valueUse != "" {
 				bad = append(bad, dropFinding{Key: key + "|value-used-with-error", Pos: pos, Kind: "value-used-with-error", Call: ci,
